@@ -1,5 +1,6 @@
 """C11 — Effective features = own + all ancestors', whatever the order of creation."""
 from harness import sessions, tsgen
+from harness.common import bud
 from harness.sessions import SB
 
 PROP = "C11"
@@ -173,7 +174,7 @@ def run(ctx, out, budget):
                 "extension; oracle = own + ancestors' declarations kept by the generator. Non-trivial = distinct histories "
                 "with >= 3 user types.")
     rng = ctx.rng(0)
-    n = 150 if budget == "quick" else 15000
+    n = bud(budget, 150, 15000)
     sess = [gen_session(rng, rng.randint(8, 40)) for _ in range(n)]
     evaluate(ctx, out, sess, "h")
 
